@@ -321,3 +321,29 @@ package multiparty
 //@ noescape PublicKeySwitchProtocol.GenShare ct
 //@   property C09
 
+
+// Read back in the order written (C08): see /verif/cmd/lvc/fieldordercheck.go
+//@ fieldorder EvaluationKeyGenShare
+//@   property C08
+//
+//@ fieldorder GaloisKeyGenShare
+//@   property C08
+//
+//@ fieldorder KeySwitchShare
+//@   property C08
+//
+//@ fieldorder PublicKeyGenShare
+//@   property C08
+//
+//@ fieldorder PublicKeySwitchShare
+//@   property C08
+//
+//@ fieldorder RefreshShare
+//@   property C08
+//
+//@ fieldorder RelinearizationKeyGenShare
+//@   property C08
+//
+//@ fieldorder ShamirSecretShare
+//@   property C08
+//
